@@ -13,6 +13,7 @@ The statements are for all token lists, including malformed ones (every recovery
 is covered by the commutation lemmas of `Lemmas/ParseErase.lean`), and for every amount of fuel.
 -/
 import NaijaVerif.Lemmas.ParseErase
+import NaijaVerif.Lemmas.ParseFlag
 import NaijaVerif.Lemmas.ParseRoundTrip
 
 namespace NaijaVerif.C10Parse
@@ -54,6 +55,44 @@ theorem acceptance_layout_insensitive (toks₁ toks₂ : List SpTok)
   constructor
   · intro h1; rw [h1] at hd; simpa using hd.symm
   · intro h2; rw [h2] at hd; simpa using hd
+
+/-! ### The `escaped` flag of a string token
+
+`Tok.str content escaped`: the flag says that the lexeme held an escape sequence (the Rust lexer then hands
+over an owned buffer instead of a slice of the source).  The parser reads it in one place
+(`parse_string_literal`, `strParts`): a content with a `{` is split as a template only when the flag is
+off.  `flagErase` sets the flag of every string token whose content holds no `{`. -/
+
+/-- **The parser does not read the `escaped` flag of a string token whose content holds no `{`**: on the
+flag-erased tokens `parse_program` gives the same tree and the same diagnostics.  For all token lists,
+malformed ones included. -/
+theorem parse_ignores_str_flag (toks : List SpTok) :
+    parseProgram (toks.map fun t => ⟨flagErase t.tok, t.span⟩) = parseProgram toks :=
+  parseProgram_flag toks
+
+/-- Token lists with the same tokens have the same tokens up to the flag. -/
+theorem toks_anyflag {toks₁ toks₂ : List SpTok} (h : toks₁.map (·.tok) = toks₂.map (·.tok)) :
+    toks₁.map (fun t => flagErase t.tok) = toks₂.map (fun t => flagErase t.tok) := by
+  have h' := congrArg (List.map flagErase) h
+  simpa [List.map_map, Function.comp_def] using h'
+
+/-- `layout_insensitive` up to the flag: two token lists with the same tokens up to the `escaped` flag of
+the strings without `{`, and arbitrary spans: same AST up to spans, same diagnostics up to spans. -/
+theorem layout_insensitive_anyflag (toks₁ toks₂ : List SpTok)
+    (h : toks₁.map (fun t => flagErase t.tok) = toks₂.map (fun t => flagErase t.tok)) :
+    eraseSpans (parseProgram toks₁).1 = eraseSpans (parseProgram toks₂).1 ∧
+    (parseProgram toks₁).2.map (·.kind) = (parseProgram toks₂).2.map (·.kind) ∧
+    (parseProgram toks₁).2.map eraseDiag = (parseProgram toks₂).2.map eraseDiag := by
+  have := layout_insensitive (toks₁.map flagTok) (toks₂.map flagTok)
+    (by simpa [List.map_map, Function.comp_def] using h)
+  rwa [parseProgram_flag, parseProgram_flag] at this
+
+/-- the flag IS read when the content holds a `{` (`{x}` unescaped is a template, escaped it is not) and
+`flagErase` keeps it there; it is not read when the content holds none, and `flagErase` identifies the two -/
+example : (match strParts [123, 120, 125] false with | .interp _ => true | .static _ => false) = true ∧
+    (match strParts [123, 120, 125] true with | .interp _ => true | .static _ => false) = false := by decide +kernel
+example : flagErase (.str [123, 120, 125] false) ≠ flagErase (.str [123, 120, 125] true) ∧
+    flagErase (.str [97, 98, 99] false) = flagErase (.str [97, 98, 99] true) := by decide
 
 /-! ### Non-vacuity: `make x get 1` laid out in two ways -/
 
